@@ -1,7 +1,8 @@
 (* C13 - Board registry validation is exact and project files round-trip.
    Nothing but statements, closed by [exact], each followed by Print Assumptions. *)
-From Coq Require Import ZArith List Bool.
+From Coq Require Import String ZArith List Bool.
 From RV Require Import Base.Wire Base.Text Gen.Registry Tool.Registry Proofs.RegistryP.
+From RV Require Import Tool.Ini Proofs.IniP.
 Import ListNotations.
 Open Scope Z_scope.
 
@@ -40,3 +41,121 @@ Example C13_nonvacuous :
   validate [97;116;109;101;108;109;101;103;97;97;118;114] [117;110;111] = Some Mismatch.
 Proof. vm_compute. split; reflexivity. Qed.
 Print Assumptions C13_nonvacuous.
+
+(* ======================================================================== INI half
+   render     = the platformio.ini text write_project produces (template regenerated from pio.py)
+   ini_read   = CPython 3.12 configparser.ConfigParser(interpolation=None) reading that file
+   value_ok t = t has no line break (10, 13) and t == t.strip()
+   lib_ok n   = n is empty, or value_ok n and n does not start with "#" or ";"
+   expected_ini = one section "env:" + sanitised board with platform, board, framework = arduino,
+                  upload_port, and lib_deps = "\n" + the given libraries de-duplicated in
+                  first-seen order joined by "\n" (the key is absent when there is none)        *)
+
+(* the file reads back as exactly the given configuration - for ALL strings inside the guard *)
+Theorem C13_roundtrip_partial : forall (pl b port : text) (libs : list text),
+  value_ok pl = true -> value_ok b = true -> value_ok port = true -> forallb lib_ok libs = true ->
+  ini_read (render pl b port libs) = Some (expected_ini pl b port libs).
+Proof. exact roundtrip. Qed.
+Print Assumptions C13_roundtrip_partial.
+
+(* write_project itself: every accepted pair is a registry pair, whose names are inside the guard *)
+Theorem C13_roundtrip_registered_partial : forall (pl b port : text) (libs : list text),
+  validate pl b = None -> value_ok port = true -> forallb lib_ok libs = true ->
+  exists t, write_ini pl b port libs = inr t /\ ini_read t = Some (expected_ini pl b port libs).
+Proof. exact roundtrip_registered. Qed.
+Print Assumptions C13_roundtrip_registered_partial.
+
+Theorem C13_invalid_pair_writes_nothing : forall (pl b port : text) (libs : list text) (e : verr),
+  validate pl b = Some e -> write_ini pl b port libs = inl e.
+Proof. exact invalid_writes_nothing. Qed.
+Print Assumptions C13_invalid_pair_writes_nothing.
+
+(* the guard is what it says: no_padding is "t == t.strip()", and the narrower guard of the
+   work order (additionally no blank other than " " anywhere) implies it *)
+Theorem C13_guard_no_padding_is_strip : forall t : text, no_padding t = true <-> strip t = t.
+Proof. exact no_padding_iff. Qed.
+Print Assumptions C13_guard_no_padding_is_strip.
+
+Theorem C13_guard_plain_value : forall t : text, plain_value t = true -> value_ok t = true.
+Proof. exact plain_value_ok. Qed.
+Print Assumptions C13_guard_plain_value.
+
+(* every name of the generated registry is a plain word (finite, decided on the generated tables) *)
+Theorem C13_registry_names_plain : forall pl b : text,
+  registered pl b -> reg_name_ok pl = true /\ reg_name_ok b = true.
+Proof. exact registered_names_plain. Qed.
+Print Assumptions C13_registry_names_plain.
+
+(* the names _format_lib_section writes are the non-empty entries, de-duplicated in first-seen
+   order: [given_libs] is defined without the loop's accumulator; it has no duplicates, the same
+   members, and what a longer list adds comes after what a prefix already gave *)
+Theorem C13_dedup_first_seen : forall libs : list text,
+  format_lib_section libs =
+    match given_libs libs with
+    | [] => []
+    | ns => t_lib_deps_eq ++ concat (map (fun n => c_nl :: c_sp :: c_sp :: n) ns)
+    end
+  /\ NoDup (given_libs libs)
+  /\ (forall x, In x (given_libs libs) <-> In x libs /\ x <> [])
+  /\ (forall l1 l2, libs = l1 ++ l2 ->
+        given_libs libs = given_libs l1 ++ filter (fun x => negb (tmem x l1)) (given_libs l2)).
+Proof. exact dedup_first_seen. Qed.
+Print Assumptions C13_dedup_first_seen.
+
+(* the environment name uses only [A-Za-z0-9_] ... *)
+Theorem C13_env_name_safe : forall b : text, forallb is_word (sanitize_env_name b) = true.
+Proof. exact sanitize_word. Qed.
+Print Assumptions C13_env_name_safe.
+
+(* ... and distinct registered boards get distinct environment names (finite: the generated registry) *)
+Theorem C13_env_name_injective_on_registry : forall p1 p2 a b : text,
+  registered p1 a -> registered p2 b -> sanitize_env_name a = sanitize_env_name b -> a = b.
+Proof. exact registry_sanitize_injective_reg. Qed.
+Print Assumptions C13_env_name_injective_on_registry.
+
+(* outside the guard the round trip fails: the three listed findings *)
+Theorem C13_port_padding_refuted :
+  exists port, no_break port = true /\ validate w_avr w_uno = None /\
+    ini_read (render w_avr w_uno port []) = Some (expected_ini w_avr w_uno w_com3 []) /\
+    expected_ini w_avr w_uno w_com3 [] <> expected_ini w_avr w_uno port [].
+Proof. exact port_padding_refuted. Qed.
+Print Assumptions C13_port_padding_refuted.
+
+Theorem C13_lib_comment_refuted :
+  exists libs, forallb no_break libs = true /\ forallb no_padding libs = true /\
+    ini_read (render w_avr w_uno w_com3 libs) = Some (expected_ini w_avr w_uno w_com3 [w_servo]) /\
+    expected_ini w_avr w_uno w_com3 [w_servo] <> expected_ini w_avr w_uno w_com3 libs.
+Proof. exact lib_comment_refuted. Qed.
+Print Assumptions C13_lib_comment_refuted.
+
+Theorem C13_lib_padding_refuted :
+  exists libs, forallb no_break libs = true /\
+    forallb (fun n => match n with c :: _ => negb (is_comment_prefix c) | [] => true end) libs = true /\
+    ini_read (render w_avr w_uno w_com3 libs) = Some (expected_ini w_avr w_uno w_com3 [w_servo]) /\
+    expected_ini w_avr w_uno w_com3 [w_servo] <> expected_ini w_avr w_uno w_com3 libs.
+Proof. exact lib_padding_refuted. Qed.
+Print Assumptions C13_lib_padding_refuted.
+
+(* non-vacuity: a configuration inside the guard with blanks, delimiters, comment characters and
+   brackets in the port, duplicate / empty / odd library names - and what it reads back as *)
+Example C13_roundtrip_nonvacuous :
+  let port := txt "/dev/tty USB=0:#;[x]" in
+  let libs := [txt "Servo"; []; txt "a b"; txt "Servo"; txt "x=y"; txt "[z]"; txt "a b"] in
+  value_ok (txt "atmelavr") = true /\ value_ok (txt "a-star32U4") = true /\
+  value_ok port = true /\ forallb lib_ok libs = true /\
+  validate (txt "atmelavr") (txt "a-star32U4") = None /\
+  ini_read (render (txt "atmelavr") (txt "a-star32U4") port libs) =
+  Some [(txt "env:a_star32U4",
+         [(txt "platform", txt "atmelavr"); (txt "board", txt "a-star32U4");
+          (txt "framework", txt "arduino"); (txt "upload_port", port);
+          (txt "lib_deps", c_nl :: txt "Servo" ++ c_nl :: txt "a b" ++ c_nl :: txt "x=y" ++ c_nl :: txt "[z]")])].
+Proof. vm_compute. repeat split; reflexivity. Qed.
+Print Assumptions C13_roundtrip_nonvacuous.
+
+(* a line break inside a value breaks the file (outside the property's "printable" quantifier;
+   shows that the no-line-break conjunct of the guard cannot be dropped) *)
+Theorem C13_line_break_refuted :
+  (exists port, no_padding port = true /\ ini_read (render w_avr w_uno port []) = None) /\
+  (exists lib, no_padding lib = true /\ ini_read (render w_avr w_uno w_com3 [lib]) = None).
+Proof. exact line_break_refuted. Qed.
+Print Assumptions C13_line_break_refuted.
